@@ -489,7 +489,7 @@ func main() {
 			fmt.Sprintf("pixel-decoding entry points are skipped when any header in the input declares more than %d pixels (counted as skipped-declared-large)", maxDeclaredArea))
 
 		witness := []byte("RIFF\x02\x00\x00\x00WEBPVP8 ")
-		total := 10000
+		total := 8000
 		if c.Thorough() {
 			total = 60000
 		}
